@@ -1,5 +1,6 @@
 SPECIFICATION TSpec
 CONSTANT MaxV = 0
 CONSTANT Limits = {}
+CONSTANT MaxCovers = 0
 CONSTANT SmallFirst = FALSE
 CHECK_DEADLOCK FALSE
